@@ -72,10 +72,14 @@ func vClientDo(c *http.Client, req *http.Request) (*http.Response, error) {
 		return &http.Response{StatusCode: 200, Status: "200 OK", Body: &vBody{data: []byte(" 203.0.113.9\n")}}, nil
 	case 1: // 200 with garbage
 		return &http.Response{StatusCode: 200, Status: "200 OK", Body: &vBody{data: []byte("<html>not an address</html>")}}, nil
-	case 2: // client error
-		return &http.Response{StatusCode: 403, Status: "403 Forbidden", Body: &vBody{data: []byte("no")}}, nil
-	case 3: // server error with a valid address in the body (accepted by the code as it stands)
-		return &http.Response{StatusCode: 503, Status: "503", Body: &vBody{data: []byte("203.0.113.9")}}, nil
+	case 2: // client error: any status 400..499, whose body even is a well-formed address — final all the same
+		st := V.U8("status4xx")
+		V.Assume(st < 100)
+		return &http.Response{StatusCode: 400 + int(st), Status: "4xx", Body: &vBody{data: []byte("203.0.113.77")}}, nil
+	case 3: // server error (any status 500..599) with a valid address in the body (accepted by the code as it stands)
+		st := V.U8("status5xx")
+		V.Assume(st < 100)
+		return &http.Response{StatusCode: 500 + int(st), Status: "5xx", Body: &vBody{data: []byte("203.0.113.9")}}, nil
 	}
 	return nil, errors.New("transport error")
 }
